@@ -559,6 +559,28 @@ class Generator:
                    attr=a, list_check=lc, expect=expect)
             o.list_attr = a
             return o
+        if self.invalid_rate and r.random() < 0.05:
+            # assign the whole list of another model *as it is* (still attached there): refused, and the offered list stays the list
+            # of the model it belongs to
+            def spans_store(x):
+                # (a list that spans its model's whole store - the entries of a file without a final newline - passes for a free
+                # node: the known finding whole-store-child-accepted, driven by its own special kind; the donors here are shared)
+                rep = getattr(x, a).repeated
+                st = rep.token_store
+                return st is None or (rep.first_token is st.get_first() and rep.last_token is st.get_last())
+            others = [x for x in self.corpus.by_class.get(type(m), [])
+                      if x is not m and not isinstance(x, models.File) and len(getattr(x, a)) and not spans_store(x)]
+            if others:
+                other = r.choice(others)
+                src = getattr(other, a)
+                owner_before = vars(src).get('_model', None)
+                o = Op(f'{k}:assign-attached', f'{path}.{a} = <the {a} of another {type(m).__name__}, attached there>', m, path,
+                       lambda: list(getattr(m, a)), lambda: setattr(m, a, src), attr=a, expect=ValueError, invalid='attached-list',
+                       donors=[other])
+                o.list_attr = a
+                o.after_refusal = lambda: None if vars(src).get('_model', None) is owner_before else \
+                    'the refused call re-bound the offered list object to the receiver (its claims will scan the wrong model)'
+                return o
         if r.random() < 0.04 and (not self.syntax_only or k == 'raw_list'):
             # assign the whole list: a deep copy of the same list of another model of this class
             pool = [x for x in self.corpus.by_class.get(type(m), []) if len(getattr(x, a))]
